@@ -58,7 +58,7 @@ func runOne(ctx context.Context, sp solverSpec, file string, timeoutS int) (stat
 	// a (get-model) after unsat/unknown/timeout makes every solver print a model-unavailable error: not an engine failure
 	var kept []string
 	for _, l := range strings.Split(out, "\n") {
-		if strings.Contains(l, "(error") && (strings.Contains(l, "model is not available") || strings.Contains(l, "annot get model")) {
+		if strings.Contains(l, "(error") && (strings.Contains(l, "model is not available") || strings.Contains(l, "annot get model") || strings.Contains(l, "annot get value")) {
 			continue
 		}
 		kept = append(kept, l)
